@@ -66,7 +66,8 @@ int main(int argc, char **argv) {
     }
     if (r.below(8) == 0) { const int pads[] = {1, 4, 12}; g.pad_stride = pads[r.below(3)]; g.family += "padded-stride+"; }
     vf::EncOpts o = vf::GenOpts(r, g);
-    if (!c09) o.track = r.below(2) != 0;  // tracking of encoded properties must not influence the stream (C09 needs it on)
+    if (!c09) o.track = r.below(2) != 0;
+    if (!o.expert && r.below(4) == 0) o.history = 1 + static_cast<int>(r.below(2));  // the Encoder object has encoded something else before  // tracking of encoded properties must not influence the stream (C09 needs it on)
     vf::AvoidHugeEntropyTables(g, &o);
     if (gp.narrow_int32) {
       // ASan/UBSan slice: the tex-coord predictor squares 2*q-bit quantities in int64 and overflows (UB on both
@@ -114,7 +115,7 @@ int main(int argc, char **argv) {
     const uint32_t dnp = dr.pc->num_points();
     const uint32_t dnf = dr.mesh ? dr.mesh->num_faces() : 0;
     if (c09) {
-      if (er.num_points != dnp || (g.is_mesh && er.num_faces != dnf)) {
+      if (er.num_points != dnp || er.num_faces != dnf) {  // a decoded point cloud has 0 faces: the report must say 0 too
         rep.violation(std::string("count-mismatch/") + (o.expert ? "ExpertEncoder/" : "Encoder/") + cfg + (er.num_points != dnp ? "/points" : "/faces"),
                       desc + " reported points=" + std::to_string(er.num_points) + " faces=" + std::to_string(er.num_faces) + " decoded points=" + std::to_string(dnp) + " faces=" + std::to_string(dnf), arts);
         return;
